@@ -16,7 +16,7 @@ import subprocess
 import sys
 
 VERIF = os.path.dirname(os.path.dirname(os.path.abspath(__file__)))
-WT = "/tmp/wt-seedeval"
+WT = os.environ.get("SEEDEVAL_WT", "/tmp/wt-seedeval")
 ENV = dict(os.environ, GOFLAGS="-mod=mod", GOPROXY="off", GOSUMDB="off", GOTOOLCHAIN="local")
 
 
@@ -81,11 +81,24 @@ def main():
     touched = sorted(set("./" + os.path.dirname(l[6:]) + "/" for l in open(patch) if l.startswith("+++ b/") and l.strip().endswith(".go")))
     ran, failed_patched, log_patched = run_demo(outdir)
     res["demonstration"] = {"ran": ran, "fails_with_patch": failed_patched, "passes_on_clean_tree": (failed_clean is False) if ran else None}
+    if not ran:
+        # keep a demonstration that was confirmed by hand earlier (demos that are not plain go tests)
+        try:
+            old = json.load(open(os.path.join(VERIF, "seeded", sid, "meta.json")))["demonstration"]
+            if old.get("ran") or old.get("note"):
+                res["demonstration"] = old
+        except Exception:
+            pass
     rc, out = sh("go build %s && go test -vet=off -count=1 %s" % (" ".join(touched), " ".join(t for t in touched if t.startswith("./pkg"))), cwd=WT)
     res["existing_tests_with_patch"] = {"rc": rc, "tail": out[-600:]}
     # the check
     env = dict(os.environ, VERIF_REPO=WT)
+    # the evidence file describes runs on /repo: keep it (the check rewrites it on every run)
+    evf = os.path.join(VERIF, "evidence", prop + ".json")
+    saved = open(evf, "rb").read() if os.path.exists(evf) else None
     rc, out = sh("python3 tools/check.py %s --tier %s" % (prop, tier), cwd=VERIF, env=env)
+    if saved is not None:
+        open(evf, "wb").write(saved)
     vio = [l for l in out.splitlines() if l.startswith("VIOLATION")]
     res["check"] = {"tier": tier, "rc": rc, "violation_lines": vio[:5],
                     "detected": rc == 1 and bool(vio),
@@ -103,10 +116,10 @@ def main():
     dst = os.path.join(VERIF, "seeded", sid)
     os.makedirs(dst, exist_ok=True)
     for f in os.listdir(outdir):
-        if f.endswith((".diff", ".go", ".txt", ".md")) and os.path.getsize(os.path.join(outdir, f)) < 200000:
+        if os.path.abspath(outdir) != os.path.abspath(dst) and f.endswith((".diff", ".go", ".txt", ".md", ".sh", ".json")) and f != "meta.json" and os.path.getsize(os.path.join(outdir, f)) < 200000:
             shutil.copy(os.path.join(outdir, f), os.path.join(dst, f))
-    res["ran"] = ["git worktree add /tmp/wt-seedeval HEAD; demonstration on clean tree; git apply patch.diff; demonstration; "
-                  "go build/test of touched packages; VERIF_REPO=/tmp/wt-seedeval python3 tools/check.py %s --tier %s" % (prop, tier)]
+    res["ran"] = ["git worktree add <worktree> HEAD; demonstration on clean tree; git apply patch.diff; demonstration; "
+                  "go build/test of touched packages; VERIF_REPO=<worktree> python3 tools/check.py %s --tier %s" % (prop, tier)]
     json.dump(res, open(os.path.join(dst, "meta.json"), "w"), indent=1)
     print(json.dumps({k: res[k] for k in ("seed_id", "demonstration", "check")}, indent=1)[:2500])
     sh("git -C /repo worktree remove --force %s" % WT)
